@@ -6,6 +6,7 @@ their result depend on every argument and may write through every mutable pointe
 receive; returned values may point wherever any argument points).  Therefore "no dependence
 path" and "not written" are definite facts; "depends"/"written" are may-facts.
 """
+import os
 from collections import defaultdict
 
 from mir import Place, Operand, short
@@ -33,6 +34,37 @@ def is_mut_ref_ty(ty):
 def may_hold_ptr(ty):
     """can a value of this type carry a pointer into other objects?  (generic T/A are values: A-T)"""
     return any(m in ty for m in ("&", "*const", "*mut", "'", "dyn ", "impl ", "{closure", "fn("))
+
+
+FIELD_SENSITIVE = not os.environ.get("VERIF_NO_FIELDS")
+
+
+class DepGraph(defaultdict):
+    """dependence graph; the entries of field nodes ("LF", local, i) are computed on demand"""
+
+    def __init__(self, flow):
+        super().__init__(set)
+        self.flow = flow
+        self.field_defs = defaultdict(lambda: defaultdict(set))   # S -> i -> reads of what was stored in field i
+        self.whole_src = defaultdict(list)                        # S -> [(place copied from, control nodes)]
+        self.opaque = defaultdict(set)                            # S -> reads of every other definition
+
+    def _lf(self, n):
+        (_, S, i) = n
+        out = set(self.opaque.get(S, ())) | set(self.field_defs.get(S, {}).get(i, ()))
+        for (pl, ctrl) in self.whole_src.get(S, ()):
+            out |= self.flow._place_reads_field(pl, i) | ctrl
+        return out
+
+    def get(self, n, default=None):
+        if isinstance(n, tuple) and n and n[0] == "LF":
+            return self._lf(n)
+        return super().get(n, default)
+
+    def __missing__(self, n):
+        if isinstance(n, tuple) and n and n[0] == "LF":
+            return self._lf(n)
+        return super().__missing__(n)
 
 
 def L(n):
@@ -223,16 +255,52 @@ class Flow:
             up = next((e["f"] for e in place.proj if isinstance(e, dict) and "f" in e and e["f"].startswith("^")), None)
             if up is not None:
                 out = {("UPV", up[1:])}
+                if FIELD_SENSITIVE:
+                    k0 = next(k for k, e in enumerate(place.proj) if isinstance(e, dict) and e.get("f") == up)
+                    rest = [e for e in place.proj[k0 + 1:]]
+                    if rest and rest[0] == "*":
+                        rest = rest[1:]
+                    if k0 <= 1 and rest and isinstance(rest[0], dict) and "f" in rest[0] and "i" in rest[0]:
+                        out = {("UPVF", up[1:], rest[0]["i"])}
                 for i in place.index_locals():
                     out.add(L(i))
                 return out
-        out = {L(place.local)}
+        p0 = place.proj[0] if place.proj else None
+        if FIELD_SENSITIVE and isinstance(p0, dict) and "f" in p0 and "i" in p0:
+            # a field of a local struct / tuple: only what was stored in that field (see dep())
+            out = {("LF", place.local, p0["i"])}
+        else:
+            out = {L(place.local)}
         for i in place.index_locals():
             out.add(L(i))
         if place.has_deref():
             for o in self.resolve(place):
                 out.add(o if o[0] == "L" else ("SRC",) + o[1:])
         return out
+
+    def _place_reads_field(self, place, i):
+        """dependence sources of reading field #i of the struct / tuple stored in `place`"""
+        if self.b.kind == "closure" and place.local == 1 and place.proj:
+            pr = place.proj[1:] if place.proj[0] == "*" else place.proj
+            if len(pr) == 1 and isinstance(pr[0], dict) and pr[0].get("f", "").startswith("^") and FIELD_SENSITIVE:
+                return {("UPVF", pr[0]["f"][1:], i)}
+            return self._place_reads(place)
+        if place.has_deref():
+            return self._place_reads(place)
+        if not place.proj and FIELD_SENSITIVE:
+            return {("LF", place.local, i)}
+        return self._place_reads(place)
+
+    def _op_reads_field(self, op, i):
+        if op.place is None:
+            return self._op_reads(op)
+        pl = op.place
+        if not pl.proj:
+            # a reference temporary: `_t = &S` (by-reference capture of a struct)
+            d = self.single_def(pl.local)
+            if d is not None and getattr(d, "rv", None) is not None and d.rv.k == "ref" and d.rv.place is not None and not d.rv.place.has_deref():
+                return self._place_reads_field(d.rv.place, i)
+        return self._place_reads_field(pl, i)
 
     def _op_reads(self, op):
         if op.place is not None:
@@ -250,7 +318,7 @@ class Flow:
         if self._dep is not None:
             return self._dep
         b = self.b
-        dep = defaultdict(set)
+        dep = DepGraph(self)
         cd = b.control_deps()
         for blk in b.normal_blocks():
             ctrl = {("SW", a) for (a, s) in cd.get(blk.i, ())}
@@ -272,11 +340,24 @@ class Flow:
                     for o in self.resolve(s.lhs):
                         n = o if o[0] == "L" else ("SRC",) + o[1:]
                         dep[n] |= reads
+                        if o[0] == "L":
+                            dep.opaque[o[1]] |= reads
                     dep[L(s.lhs.local)]  # touch
                 else:
-                    dep[L(s.lhs.local)] |= reads
+                    S = s.lhs.local
+                    dep[L(S)] |= reads
                     for i in s.lhs.index_locals():
-                        dep[L(s.lhs.local)].add(L(i))
+                        dep[L(S)].add(L(i))
+                    p0 = s.lhs.proj[0] if s.lhs.proj else None
+                    if not s.lhs.proj and rv.k == "aggr" and rv.j["ak"] in ("adt", "tuple", "closure"):
+                        for i, o in enumerate(rv.ops):
+                            dep.field_defs[S][i] |= self._op_reads(o) | ctrl
+                    elif not s.lhs.proj and rv.k == "use" and rv.ops and rv.ops[0].place is not None:
+                        dep.whole_src[S].append((rv.ops[0].place, ctrl))
+                    elif isinstance(p0, dict) and "f" in p0 and "i" in p0:
+                        dep.field_defs[S][p0["i"]] |= reads | {L(i) for i in s.lhs.index_locals()}
+                    else:
+                        dep.opaque[S] |= reads | {L(i) for i in s.lhs.index_locals()}
             t = blk.term
             if t.k == "call":
                 cn = ("CALL", blk.i)
@@ -288,13 +369,22 @@ class Flow:
                 if t.dest.has_deref():
                     for o in self.resolve(t.dest):
                         dep[o if o[0] == "L" else ("SRC",) + o[1:]].add(cn)
+                        if o[0] == "L":
+                            dep.opaque[o[1]].add(cn)
                 else:
                     dep[L(t.dest.local)].add(cn)
+                    p0 = t.dest.proj[0] if t.dest.proj else None
+                    if isinstance(p0, dict) and "f" in p0 and "i" in p0:
+                        dep.field_defs[t.dest.local][p0["i"]].add(cn)
+                    else:
+                        dep.opaque[t.dest.local].add(cn)
                 nm = t.callee.short if t.callee else "<indirect>"
                 deep = nm not in SHALLOW_MUT
                 for a in t.args:
                     for o in self.mut_reach(a, deep):
                         dep[o if o[0] == "L" else ("SRC",) + o[1:]].add(cn)
+                        if o[0] == "L":
+                            dep.opaque[o[1]].add(cn)
             elif t.k == "assert":
                 pass
         self._dep = dep
@@ -314,6 +404,10 @@ class Flow:
                 if s.k == "assign" and not s.lhs.proj and s.rv is not None and s.rv.k == "use" and s.rv.ops and s.rv.ops[0].place is not None and not s.rv.ops[0].place.proj and s.rv.ops[0].place.local in out and s.lhs.local not in out:
                     out.add(s.lhs.local)
                     changed = True
+                elif s.k == "assign" and not s.lhs.proj and s.rv is not None and s.rv.k == "ref" and s.rv.place is not None and not s.rv.place.proj and s.rv.place.local in out and s.lhs.local not in out:
+                    # `&f`: a reference to the whole value stands for it (`.map(&per_item)`)
+                    out.add(s.lhs.local)
+                    changed = True
         return out
 
     def slice_local(self, starts, data_only=False):
@@ -331,6 +425,12 @@ class Flow:
                     continue
                 if m not in seen:
                     work.append(m)
+        # a field node also marks its local / upvar as touched (membership tests), without following the rest of it
+        for n in list(seen):
+            if n[0] == "LF":
+                seen.add(L(n[1]))
+            elif n[0] == "UPVF":
+                seen.add(("UPV", n[1]))
         return seen
 
     # ------------------------------------------------------------------ describing values
@@ -638,6 +738,13 @@ class Flows:
             out.add((bp, n))
             fl = self.of(bp)
             b = fl.b
+            fld = None
+            if n[0] == "LF":
+                out.add((bp, L(n[1])))
+                fld = n[2]
+            elif n[0] == "UPVF":
+                out.add((bp, ("UPV", n[1])))
+                fld = n[2]
             is_clos_val = skip_captures and n[0] == "L" and n[1] in fl.closure_locals
             sel_allowed = None
             if skip_selectors and n[0] == "CALL":
@@ -667,13 +774,16 @@ class Flows:
                         mutates = any(fl.mut_reach(a_, False) for a_ in tc_.args if a_.place is not None and a_.place.ty.startswith("&mut"))
                         if not mutates and (dl.has_deref() or len(b.assigns_to(dl.local)) <= 1):
                             continue
-                    if n[0] == "L" and isinstance(n[1], int) and len(b.assigns_to(n[1])) <= 1:
+                    if n[0] in ("L", "LF") and isinstance(n[1], int) and len(b.assigns_to(n[1])) <= 1:
                         continue
                 if is_clos_val and m[0] != "CLOS":
                     continue  # captures are reached through the closure body's upvar reads
                 work.append((bp, m, stack))
-            if n[0] == "UPV":
+            if n[0] in ("UPV", "UPVF"):
                 caps = [c["name"] for c in b.item.get("captures", [])]
+
+                def cap_reads(pf_, o_):
+                    return pf_._op_reads(o_) if fld is None else pf_._op_reads_field(o_, fld)
                 if stack and stack[-1][0] == "clos":
                     # we descended into this closure from its creation site
                     (_, pp, sbb, sidx) = stack[-1]
@@ -681,13 +791,13 @@ class Flows:
                     s_ = pb.blocks[sbb].stmts[sidx]
                     for ci, cname in enumerate(caps):
                         if cname == n[1] and ci < len(s_.rv.ops):
-                            for r in self.of(pp)._op_reads(s_.rv.ops[ci]):
+                            for r in cap_reads(self.of(pp), s_.rv.ops[ci]):
                                 work.append((pp, r, stack[:-1]))
                 elif up and bp not in roots:
                     for (pp, s_) in self.closure_sites(bp):
                         for ci, cname in enumerate(caps):
                             if cname == n[1] and ci < len(s_.rv.ops):
-                                for r in self.of(pp)._op_reads(s_.rv.ops[ci]):
+                                for r in cap_reads(self.of(pp), s_.rv.ops[ci]):
                                     work.append((pp, r, ()))
             elif n[0] == "CALL" and down is True and len(stack) < max_stack:
                 t = b.blocks[n[1]].term
@@ -713,10 +823,27 @@ class Flows:
                                 continue
                             if k[0] in ("CALL", "SW", "SRC") or k == L(0):
                                 work.append((cp, k, nstack))
-            elif n[0] in ("L", "SRC") and isinstance(n[1], int):
+            elif n[0] in ("L", "SRC", "LF") and isinstance(n[1], int):
                 idx = n[1]
                 if not (1 <= idx <= b.arg_count):
                     continue
+                if n[0] == "LF" and not (b.kind == "closure" and idx == 1):
+                    # field #fld of a by-value struct / tuple parameter: the same field of the argument
+                    sites = []
+                    if stack:
+                        if stack[-1][0] == "call":
+                            sites = [(stack[-1][1], stack[-1][2], stack[:-1])]
+                    elif up and bp not in roots and b.kind != "closure":
+                        sites = [(cp, cbb, ()) for (cp, cbb) in self.callers().get(bp, ())]
+                    if sites or b.kind != "closure":
+                        for (cp, cbb, st_) in sites:
+                            cf = self.of(cp)
+                            t = cf.b.blocks[cbb].term
+                            if idx - 1 < len(t.args):
+                                for r in cf._op_reads_field(t.args[idx - 1], fld):
+                                    work.append((cp, r, st_))
+                        continue
+                    n = L(idx)
                 if stack:
                     top = stack[-1]
                     if top[0] == "call":
